@@ -163,6 +163,77 @@ func c25SyncErrorLogged(s *c02Src) (Tri, string) {
 	return Unknown, c02Where(s.sw, fd)
 }
 
+// flushLocked hands at most math.MaxUint16 entries to CompressEntries: right after taking the
+// entries out of the buffer it puts everything beyond that back (Restore) and keeps the prefix,
+// and after the block (and its header rewrite) it goes on with the rest.
+func c25SplitsOversized(s *c02Src) (Tri, string) {
+	if s.w == nil {
+		return Unknown, ""
+	}
+	fd := s.w.Func("FileWriter", "flushLocked")
+	if fd == nil {
+		return Unknown, c02Writer
+	}
+	where := c02Where(s.w, fd)
+	mentions := s.w.Contains(fd, "MaxUint16") || s.w.Contains(fd, "65535") || s.w.Contains(fd, "entries[")
+	if !mentions {
+		return No, where
+	}
+	// statement order inside the function body: take, (guarded) restore+cut, compress, ..., continue
+	take, cut, comp, cont := -1, -1, -1, -1
+	for i, st := range fd.Body.List {
+		txt := s.w.Str(st)
+		switch {
+		case strings.HasPrefix(txt, "entries := fw.buffer.GetEntriesAndClear()"):
+			take = i
+		case strings.HasPrefix(txt, "if more {") && strings.Contains(txt, "fw.buffer.Restore(entries[math.MaxUint16:])") &&
+			strings.Contains(txt, "entries = entries[:math.MaxUint16]") && cut < 0:
+			cut = i
+		case strings.Contains(txt, "CompressEntries(entries)") && comp < 0:
+			comp = i
+		case strings.HasPrefix(txt, "if more {") && strings.Contains(txt, "return fw.flushLocked()"):
+			cont = i
+		}
+	}
+	moreDef := s.w.Contains(fd, "more := len(entries) > math.MaxUint16")
+	last := len(fd.Body.List) - 1
+	if moreDef && take >= 0 && take < cut && cut < comp && cont > comp && cont == last-1 &&
+		s.w.Str(fd.Body.List[last]) == "return nil" {
+		return Yes, c02Where(s.w, fd.Body.List[cut])
+	}
+	return Unknown, where
+}
+
+// WriteBuffer.Add and ShouldFlush report full at math.MaxUint16 entries (whatever the block size)
+func c25FlushesAtCountBound(s *c02Src) (Tri, string) {
+	if s.b == nil {
+		return Unknown, ""
+	}
+	add, sf := s.b.Func("WriteBuffer", "Add"), s.b.Func("WriteBuffer", "ShouldFlush")
+	if add == nil || sf == nil {
+		return Unknown, c02Block
+	}
+	const ret = "return wb.currentSize >= wb.maxSize || len(wb.entries) >= math.MaxUint16"
+	okAdd := len(add.Body.List) > 0 && s.b.Str(add.Body.List[len(add.Body.List)-1]) == ret
+	okSf := len(sf.Body.List) > 0 && s.b.Str(sf.Body.List[len(sf.Body.List)-1]) == ret
+	if okAdd && okSf {
+		return Yes, c02Where(s.b, add)
+	}
+	if !s.b.Contains(add, "MaxUint16") && !s.b.Contains(add, "65535") && !s.b.Contains(add, "len(wb.entries)") {
+		return No, c02Where(s.b, add)
+	}
+	return Unknown, c02Where(s.b, add)
+}
+
+// the block-reader facts the model's reader relies on (same detectors as C04)
+func c25ReaderAssumptions(fs *Facts, s *c02Src) {
+	ty, err := Load(c01Types)
+	if err != nil {
+		ty = nil
+	}
+	c04ParseBlock(fs, s.b, ty)
+}
+
 func init() {
 	Register("C25", Extractor{Import: "Hv.Props.C25", Type: "Hv.C25.Facts", Run: func(fs *Facts) {
 		s := c02Load(fs)
@@ -171,6 +242,10 @@ func init() {
 		rb, ro, w := c25FlushFailure(s)
 		fs.Tri("rollsBackFailedBlock", rb, w)
 		fs.Tri("restoresOffsetAfterHeader", ro, w)
+		t, w = c25SplitsOversized(s)
+		fs.Tri("splitsOversizedBuffer", t, w)
+		t, w = c25FlushesAtCountBound(s)
+		fs.Tri("flushesAtCountBound", t, w)
 		t, w = c25WriteErrorsSkipped(s)
 		fs.Tri("writeErrorsSkipped", t, w)
 		t, w = c25SyncErrorLogged(s)
@@ -187,5 +262,8 @@ func init() {
 		sh, td, w := c02ReaderFacts(s)
 		fs.Tri("shortHeaderIsEOF", sh, w)
 		fs.Tri("tornDataIsEOF", td, w)
+		t, w = c03CloseErrorAborts(s)
+		fs.Tri("closeErrorAborts", t, w)
+		c25ReaderAssumptions(fs, s)
 	}})
 }
